@@ -1277,6 +1277,10 @@ func init() {
 	reg("os.Getenv", func(in *Interp, fn *ssa.Function, a []Value, c *frame, s ssa.Instruction) (Value, bool) {
 		return "", true
 	})
+	reg("os.Environ", func(in *Interp, fn *ssa.Function, a []Value, c *frame, s ssa.Instruction) (Value, bool) {
+		// the environment is empty in the model (as os.Getenv answers "")
+		return in.sliceOf(types.Typ[types.String], nil), true
+	})
 	// sort.Slice / sort.SliceStable / sort.SliceIsSorted: the package obtains length and swap function through
 	// internal/reflectlite; here the swap is an engine function over the slice's backing array and the package's
 	// own sorting routines (pdqsort_func, stable_func: real SSA) run with the caller's less function.
